@@ -102,6 +102,16 @@ static bool range_add(zckRange *info, zckChunk *chk, zckCtx *zck) {
         add_index = true;
     }
 
+    /* A chunk that stores no bytes has nothing to request; it is only listed
+     * in the range's index */
+    if(chk->comp_length == 0) {
+        if(add_index &&
+           !index_new_chunk(zck, &(info->index), chk->digest, chk->digest_size,
+                            chk->digest_uncompressed, 0, 0, chk, false))
+            return false;
+        return true;
+    }
+
     size_t start = chk->start + header_len;
     size_t end = chk->start + header_len + chk->comp_length - 1;
     zckRangeItem *prev = info->first;
@@ -123,7 +133,11 @@ static bool range_add(zckRange *info, zckChunk *chk, zckCtx *zck) {
         } else { // start == ptr->start
             if(end > ptr->end)
                 ptr->end = end;
-            info->count += 1;
+            if(add_index &&
+               !index_new_chunk(zck, &(info->index), chk->digest,
+                                chk->digest_size, chk->digest_uncompressed,
+                                chk->comp_length, chk->comp_length, chk, false))
+                return false;
             range_merge_combined(zck, info);
             return true;
         }
@@ -206,7 +220,8 @@ zckRange ZCK_PUBLIC_API *zck_get_missing_range(zckCtx *zck, int max_ranges) {
             zck_range_free(&range);
             return NULL;
         }
-        if(max_ranges >= 0 && range->count >= max_ranges)
+        /* Always ask for at least one range */
+        if(max_ranges >= 0 && range->count > 0 && range->count >= max_ranges)
             break;
     }
     return range;
